@@ -79,6 +79,32 @@ func TestC17codec(t *testing.T) {
 		if err != nil || back != d {
 			col.Violation("codec-roundtrip", fmt.Sprintf("duration %v (%d ns) is stored as %q which is read back as %v (%v)", d, int64(d), s, back, err), map[string]any{"duration_ns": int64(d), "stored": s})
 		}
+		// the other representations of the same stored value: JSON (string form) and
+		// the numeric / pointer source types Scan accepts
+		{
+			sub := &ent.Subscription{}
+			_ = (&sub.TTL).Scan(d)
+			js, jerr := sub.TTL.MarshalJSON()
+			back := &ent.Subscription{}
+			if jerr == nil {
+				jerr = (&back.TTL).UnmarshalJSON(js)
+			}
+			if jerr != nil || time.Duration(back.TTL) != d {
+				col.Violation("codec-json-roundtrip", fmt.Sprintf("duration %v (%d ns) marshals to %s which unmarshals to %v (%v)", d, int64(d), js, time.Duration(back.TTL), jerr), map[string]any{"duration_ns": int64(d)})
+			}
+			n64 := int64(d)
+			for _, src := range []any{n64, &n64, &d} {
+				x := &ent.Subscription{}
+				if err := (&x.TTL).Scan(src); err != nil || time.Duration(x.TTL) != d {
+					col.Violation("codec-scan-type", fmt.Sprintf("Scan(%T) of %d ns gives %v (%v)", src, n64, time.Duration(x.TTL), err), map[string]any{"duration_ns": n64})
+				}
+			}
+			x := &ent.Subscription{}
+			_ = (&x.TTL).Scan(d)
+			if err := (&x.TTL).Scan(nil); err != nil || x.TTL != 0 {
+				col.Violation("codec-scan-nil", fmt.Sprintf("Scan(nil) gives %v (%v)", time.Duration(x.TTL), err), nil)
+			}
+		}
 		col.Case(evd.FP("rt", int64(d)), true)
 	}
 	// 2. PostgreSQL-style interval strings (what an `interval` column returns)
